@@ -220,6 +220,7 @@ pub struct HxResult {
     pub wall_s: f64,
     pub widest_level: usize,
     pub machinery: Vec<String>,
+    pub key_bytes: u64,
 }
 
 pub fn encode_snapshot(s: &Snapshot, out: &mut Vec<u8>) {
@@ -999,8 +1000,13 @@ fn run_n<const N: usize>(cfg: &HxCfg) -> HxResult {
         let roots_ref = &roots;
         let trail_ref = &trail;
         let errors: std::sync::Mutex<Vec<String>> = std::sync::Mutex::new(vec![]);
+        let workers_done = std::sync::atomic::AtomicUsize::new(0);
+        let nworkers = nthreads.min(nchunks);
+        // states new in this level; `seen` (all earlier levels) stays read-only while workers consult it
+        let mut seen_new: FxHashSet<Box<[u8]>> = FxHashSet::default();
+        let mut next_trail: Vec<(u32, Op)> = vec![];
         std::thread::scope(|s| {
-            for _ in 0..nthreads.min(nchunks) {
+            for _ in 0..nworkers {
                 s.spawn(|| {
                     crate::real::install_panic_hook();
                     let mut cache: Cache<N> = Cache { at: None, g: None, m: Model::default() };
@@ -1026,33 +1032,47 @@ fn run_n<const N: usize>(cfg: &HxCfg) -> HxResult {
                         *outs[ci].lock().unwrap() = Some(out);
                     }
                     crate::inflight::idle();
+                    workers_done.fetch_add(1, std::sync::atomic::Ordering::SeqCst);
                 });
+            }
+            // ordered, streaming merge by this thread while the workers run ahead: chunk results
+            // are folded in as soon as they are the next in frontier order (bounded memory, and
+            // the outcome does not depend on thread timing)
+            for slot in &outs {
+                let o = loop {
+                    if let Some(o) = slot.lock().unwrap().take() {
+                        break Some(o);
+                    }
+                    if workers_done.load(std::sync::atomic::Ordering::SeqCst) == nworkers {
+                        break slot.lock().unwrap().take();
+                    }
+                    std::thread::sleep(Duration::from_micros(200));
+                };
+                let Some(o) = o else { continue };
+                res.transitions += o.transitions;
+                res.probe_runs += o.probe_runs;
+                for (k, v) in o.counters {
+                    *res.counters.entry(k.to_string()).or_insert(0) += v;
+                }
+                for (parent, op, f) in o.findings {
+                    let mut h = history_of(&roots, &trail, depth, parent);
+                    if let Some(op) = op {
+                        h.push(op);
+                    }
+                    record(cfg, &mut res, &h, op, f);
+                }
+                for c in o.cands {
+                    let kl = c.key.len();
+                    if seen_new.insert(c.key) {
+                        res.key_bytes += kl as u64;
+                        next_trail.push((c.parent, c.op));
+                    }
+                }
             }
         });
         machinery.extend(errors.into_inner().unwrap().into_iter().take(3));
         let aborted = stop.load(std::sync::atomic::Ordering::Relaxed);
-        // sequential, ordered merge
-        let mut next_trail: Vec<(u32, Op)> = vec![];
-        for o in outs {
-            let Some(o) = o.into_inner().unwrap() else { continue };
-            res.transitions += o.transitions;
-            res.probe_runs += o.probe_runs;
-            for (k, v) in o.counters {
-                *res.counters.entry(k.to_string()).or_insert(0) += v;
-            }
-            for (parent, op, f) in o.findings {
-                let mut h = history_of(&roots, &trail, depth, parent);
-                if let Some(op) = op {
-                    h.push(op);
-                }
-                record(cfg, &mut res, &h, op, f);
-            }
-            for c in o.cands {
-                if seen.insert(c.key) {
-                    next_trail.push((c.parent, c.op));
-                }
-            }
-        }
+        seen.extend(seen_new);
         if aborted {
             res.cap_hit = Some(format!("wall-clock cap {:?} reached while level {} was being expanded (that level is not counted as completed)", cfg.wall, depth));
             break;
